@@ -43,6 +43,9 @@ def c03(rec, mode, d):
                         "encoder output is not one well-formed Hprose value (independent reader rejects it)", True))
     elif mo.get("go_den") != "ok":
         out.append(("c03:dangling-reference-or-count", "well-formed tokens but a reference/class index/count is inconsistent", True))
+    elif mo.get("go_den_eq_abs") != "1" and rec["obs"].get("unordered") and mo.get("den_cyclic") == "1":
+        pass    # a cyclic value written through a Go map with several entries: the order of the entries decides which
+                # occurrence of a shared node is spelled out; the two denotations are not comparable (round trip decides)
     elif mo.get("go_den_eq_abs") != "1":
         if mo.get("go_den_eq_abs") == "noabs":
             out.append(("c03:no-abs", "model could not compute the expected denotation (abs) for this value", False))
@@ -114,6 +117,8 @@ def c02(rec, mode, d):
     if go.get("hex") and mo.get("go_parse") == "ok":
         if mo.get("go_den") != "ok":
             out.append(("c02:dangling-backreference", "a back-reference in the stream points at no earlier referable item", True))
+        elif mo.get("go_den_eq_abs") == "0" and rec["obs"].get("unordered") and mo.get("den_cyclic") == "1":
+            pass    # see c03: not comparable when the entry order of a map decides where a cycle is closed
         elif mo.get("go_den_eq_abs") == "0":
             out.append(("c02:backreference-resolves-to-other-item:" + tag.split(":")[0],
                         "a back-reference resolves to a different item than the encoder meant: got %s want %s" % (mo.get("go_den_txt"), mo.get("abs_txt")), True))
